@@ -29,6 +29,8 @@ def _proto_runs(lay, table):
         src = 'c'
     if table == 'i' and share in ('regs', 'both'):
         src = 'h'
+    if lay['tables'][src]['shape'] == 'default':
+        return [(0, 65536 - off)] if off == 0 else [(0, 65535)]
     cells = model.block_cells(lay['tables'][src])
     return gens.runs([k - off for k in cells if 0 <= k - off <= 65535])
 
@@ -77,7 +79,7 @@ def _step(draw, lay):
 
 @st.composite
 def _case(draw):
-    lay = draw(gens.layout(max_size=draw(st.sampled_from([20, 60, 300]))))
+    lay = draw(gens.layout(max_size=draw(st.sampled_from([20, 60, 300])), allow_default=True))
     framing = draw(st.sampled_from(['tcp', 'rtu', 'ascii', 'binary', 'tls']))
     n = draw(st.integers(1, 25))
     steps = [s for s in (draw(_step(lay)) for _ in range(n)) if s]
@@ -103,8 +105,18 @@ def run_case(case):
     Framer = pm.framer_class(framing)
     written = dict((t, set()) for t in 'cdhi')
     nt = False
+    has_default = any(lay['tables'][t]['shape'] == 'default' for t in 'cdhi')
+    window = set([0, 1, 65535]) if has_default else None
+    if has_default:
+        labels.append('default-tables')
+
+    def real_dump():
+        return model.norm_dump(model.dump_slave(slave, window))
+
+    def model_dump():
+        return model.norm_dump(model.dump_model(ref, window))
     try:
-        if model.norm_dump(model.dump_slave(slave)) != model.norm_dump(ref.dump()):
+        if real_dump() != model_dump():
             return Outcome([Disc('initial-state', 'datastore built from the layout does not hold the initial values')], labels, False)
         framer = Framer(pm.decoder('req'))
         for i, (kind, f) in enumerate(case['steps']):
@@ -113,6 +125,11 @@ def run_case(case):
             pdu = specpdu.encode(kind, f)
             areq = model.abstract_request(pdu)
             t = model.TABLE_OF_FC[fc]
+            if window is not None:
+                for key in ('address', 'read_address'):
+                    if key in areq:
+                        n_ = areq.get('read_quantity' if key == 'read_address' else 'quantity', 1) or 1
+                        window.update(range(max(0, areq[key] + ref.off - 1), min(65536, areq[key] + ref.off + n_ + 1)))
             if fc in (22, 23):
                 nt = True
             if fc in (1, 2, 3, 4):
@@ -169,8 +186,8 @@ def run_case(case):
             if gk != want_kind or not kinds.fields_equal(_trim(gf, want_f), want_f):
                 discs.append(Disc('response', 'step %d %s %r: response %s %r, model %s %r' % (i, kind, f, gk, _short(gf), want_kind, _short(want_f))))
                 break
-            if model.norm_dump(model.dump_slave(slave)) != model.norm_dump(ref.dump()):
-                discs.append(Disc('state', 'step %d %s %r: %s' % (i, kind, f, _diff(model.norm_dump(model.dump_slave(slave)), model.norm_dump(ref.dump())))))
+            if real_dump() != model_dump():
+                discs.append(Disc('state', 'step %d %s %r: %s' % (i, kind, f, _diff(real_dump(), model_dump()))))
                 break
     except (refframe.FrameError,) as e:
         discs.append(Disc('response-frame', 'response frame not well-formed: %s' % e))
